@@ -231,7 +231,8 @@ theorem c18_dispatch_total : ∀ c ∈ nodeClasses, (dispatch c.1).isSome = true
     with TIFA's six arguments; otherwise `returns` is None / 'void' / 'identity' / 'element' / a
     zero-argument callable). -/
 theorem c18_builtin_table_callable : ∀ row ∈ builtinRows, row.usable = true := by
-  decide
+  have h : builtinRows.all Row.usable = true := by decide +kernel
+  exact fun row hrow => List.all_eq_true.1 h row hrow
 
 -- the derivation is not vacuous: the three shapes of defect it rejects
 example : (Row.mk "builtins" "sorted" .str .none).usable = false := by decide
